@@ -268,6 +268,42 @@ func c20R2(e *Engine) {
 	} else {
 		e.pass("R2", construct, e.pos(norm.Pos()), "only whitespace trimming/collapsing calls are reached; no sort, no map iteration")
 	}
+	// … and it is a normal form: EVERY run of whitespace collapses to one blank, whatever its length and whichever
+	// whitespace characters it is made of. strings.Fields splits on runs (complete); a single pass of ReplaceAll halves
+	// a run and leaves tabs and newlines alone – the same expression laid out over several lines misses its registration.
+	usesFields, replaceOutsideLoop := false, ""
+	for g := range e.reach(norm) {
+		loops := naturalLoops(g)
+		instrs(g, func(in ssa.Instruction) {
+			c, ok := in.(*ssa.Call)
+			if !ok {
+				return
+			}
+			switch staticCalleeName(c) {
+			case "strings.Fields", "strings.FieldsFunc":
+				usesFields = true
+			case "strings.ReplaceAll", "strings.Replace":
+				inLoop := false
+				for _, body := range loops {
+					if body[c.Block()] {
+						inLoop = true
+					}
+				}
+				if !inLoop {
+					replaceOutsideLoop = e.ipos(in)
+				}
+			}
+		})
+	}
+	construct = e.fname(norm) + ":collapses-every-run"
+	switch {
+	case usesFields:
+		e.pass("R2", construct, e.pos(norm.Pos()), "the expression is split on runs of whitespace (strings.Fields) and rejoined with single blanks")
+	case replaceOutsideLoop != "":
+		e.fail("R2", construct, replaceOutsideLoop, "repeated whitespace is collapsed by a single replacement pass: a run of three or more blanks (and any tab or newline) survives, so an expression that differs from its registration only in layout is not dispatched to it")
+	default:
+		e.undecided("R2", construct, e.pos(norm.Pos()), "the normalising function neither splits on whitespace runs nor is a recognised fixed-point collapse")
+	}
 }
 
 func c20R3(e *Engine) {
